@@ -60,10 +60,10 @@ pub fn write_folded_block<W: Write>(
             continue;
         }
 
-        // If the line starts with a space, avoid wrapping. Wrapping could move those
-        // leading spaces across a folded newline and interact with YAML's
-        // "more-indented" rule.
-        if line.starts_with(' ') {
+        // If the line starts with a space or a tab, avoid wrapping. Such a line is
+        // "more-indented" text: line breaks next to it are not folded, so a break
+        // inserted here would be read back as a line break.
+        if line.starts_with([' ', '\t']) {
             out.write_str(indent_str)?;
             out.write_str(line)?;
             out.write_char('\n')?;
